@@ -47,6 +47,15 @@ def gen_project(seed: int) -> T.Dict[str, str]:
     L.append("configure_file(output: 'config.h', configuration: cdata)")
     L.append("configure_file(input: 'tmpl.in', output: 'tmpl.out', configuration: cdata)")
     files['tmpl.in'] = 'a=@KEY0@\nb=@STR0@\n#mesondefine KEY1\n'
+    # templates whose line terminators are not LF (checked out with core.autocrlf, .rc/.def/.bat templates, classic-Mac files),
+    # mixed terminators, no terminator at the end of the file: the output keeps the template's terminators, and an unchanged
+    # output must be recognised as unchanged whatever they are
+    L.append("configure_file(input: 'tmpl_crlf.in', output: 'tmpl_crlf.out', configuration: cdata)")
+    L.append("configure_file(input: 'tmpl_cr.in', output: 'tmpl_cr.out', configuration: cdata)")
+    L.append("configure_file(input: 'tmpl_mixed.in', output: 'tmpl_mixed.out', configuration: cdata, format: 'cmake@')")
+    files['tmpl_crlf.in'] = '/* generated */\r\na=@KEY0@\r\n#mesondefine KEY1\r\n\r\nb=@STR0@\r\n'
+    files['tmpl_cr.in'] = 'rem generated\ra=@KEY1@\r\rb=@STR1@'
+    files['tmpl_mixed.in'] = 'a=@KEY0@\r\nb=@STR0@\n#cmakedefine KEY2 @KEY2@\rc=@KEY1@\r\nlast line without terminator @STR2@'
     L.append("inc = include_directories('.', 'include')")
     files['include/common.h'] = '#pragma once\nint common(void);\n'
     L.append("gen_h = custom_target('gen_h', output: ['gen.h', 'gen2.h'], command: [py, files('tool.py'), '@OUTPUT0@', '@OUTPUT1@'])")
@@ -129,6 +138,16 @@ def gen_project(seed: int) -> T.Dict[str, str]:
     L.append("install_headers('include/common.h', subdir: 'det')")
     L.append("install_data('tmpl.in', install_dir: get_option('datadir') / 'det', install_tag: 'extra')")
     L.append("install_subdir('include', install_dir: get_option('includedir') / 'sub')")
+    # a second compiled language in some projects (own random stream: the rest of the project is what it was without it): each
+    # language has its own flag variables in the environment (CXXFLAGS besides CFLAGS; CPPFLAGS and LDFLAGS apply to both)
+    r2 = random.Random(f'c06-aux:{seed}')
+    if r2.random() < 0.5:
+        L.append("add_languages('cpp', native: false)")
+        L.append("cxxl = static_library('cxxl', 'cxx1.cpp', 'cxx2.cpp', cpp_args: %r, include_directories: inc)" % r2.sample(['-DXA=1', '-DXB=2', '-DXC=3'], r2.randint(0, 2)))
+        L.append("executable('cxxe', 'cxxmain.cpp', link_with: [cxxl, %s], install: %s)" % (r2.choice(libs), str(r2.random() < 0.5).lower()))
+        files['cxx1.cpp'] = 'extern "C" int cxx1(void){return 1;}\n'
+        files['cxx2.cpp'] = 'extern "C" int cxx2(void){return 2;}\n'
+        files['cxxmain.cpp'] = 'int main(){return 0;}\n'
     L.append("sp = subproject('spx', default_options: ['sval=fromparent'])")
     # a subproject that may be reached for the first time by a reconfigure, with default_options of its own that matter
     L.append("if get_option('with_spy')\n  spy = subproject('spy')\nendif")
